@@ -8,7 +8,7 @@
    the only standing hypothesis is that pool names are distinct (they are resource names). *)
 From Coq Require Import List NArith Arith Bool Sorting.Permutation Sorting.Sorted.
 From Verif.Common Require Import Prefix.
-From Verif.C39 Require Import Model Spec Order Proofs Reconcile History TrieLink.
+From Verif.C39 Require Import Model Spec Order Proofs Reconcile History TrieLink Faults.
 Import ListNotations.
 
 (* (1) After a reconcile no two allocatable pools overlap. *)
@@ -153,6 +153,103 @@ Theorem c39_history_no_delete_with_blocks : forall tf s p hs,
 Proof. exact history_no_delete_with_blocks. Qed.
 Print Assumptions c39_history_no_delete_with_blocks.
 
+(* ---- passes in which API writes fail.  reconcile_f tf sf uf : the UpdateStatus calls for the pools named
+   in sf and the Update (finalizer) calls for the pools named in uf fail in this pass (Model.v states what
+   the code does on those paths).  Every statement is for EVERY sf and uf.
+   Guaranteed after every pass, whatever fails: (2), (3), first half of (4).
+   Guaranteed for the pools none of whose own writes failed in the pass: (1), second half of (4).
+   A pool whose own write failed can show a stale condition / finalizer until the requeued pass;
+   c39_faults_then_clean_pass: one clean pass after any such history restores everything. *)
+Theorem c39_faults_no_two_allocatable_overlap : forall tf sf uf pools blocks p q,
+  In p (post_f tf sf uf pools blocks) -> In q (post_f tf sf uf pools blocks) ->
+  p_name p <> p_name q -> allocatable p = true -> allocatable q = true ->
+  mem_name (p_name p) sf = false -> mem_name (p_name q) sf = false ->
+  pools_overlap p q = false.
+Proof. exact no_two_allocatable_overlap_f. Qed.
+Print Assumptions c39_faults_no_two_allocatable_overlap.
+
+Theorem c39_faults_incumbent_kept : forall tf sf uf pools blocks,
+  NoDup (map p_name pools) ->
+  (forall a b, In a pools -> In b pools -> p_name a <> p_name b ->
+               incumbent a = true -> incumbent b = true -> pools_overlap a b = false) ->
+  forall p, In p pools -> incumbent p = true ->
+    after (post_f tf sf uf pools blocks) allocatable p = true.
+Proof. exact incumbent_kept_f. Qed.
+Print Assumptions c39_faults_incumbent_kept.
+
+Theorem c39_faults_incumbent_only_loses_to_incumbent : forall tf sf uf pools blocks p,
+  NoDup (map p_name pools) -> In p pools -> incumbent p = true ->
+  after (post_f tf sf uf pools blocks) allocatable p = true
+  \/ exists q, In q pools /\ p_name q <> p_name p /\ incumbent q = true /\ pools_overlap p q = true
+               /\ after (post_f tf sf uf pools blocks) allocatable q = true.
+Proof. exact incumbent_only_loses_to_incumbent_f. Qed.
+Print Assumptions c39_faults_incumbent_only_loses_to_incumbent.
+
+(* a terminating pool masks in the very pass in which its own status write (or any other write) fails *)
+Theorem c39_faults_terminating_masks : forall tf sf uf pools blocks T p,
+  NoDup (map p_name pools) -> In T pools -> In p pools -> p_name p <> p_name T ->
+  p_deleting T = true -> (tf = true \/ p_disabled T = false) ->
+  pools_overlap T p = true ->
+  after (post_f tf sf uf pools blocks) allocatable p = true ->
+  allocatable p = true.
+Proof. exact terminating_masks_f. Qed.
+Print Assumptions c39_faults_terminating_masks.
+
+Theorem c39_faults_no_delete_with_blocks : forall tf sf uf pools blocks p,
+  NoDup (map p_name pools) -> In p pools ->
+  p_deleting p = true -> p_fin p = true -> has_block p blocks = true ->
+  after (post_f tf sf uf pools blocks) p_fin p = true /\ after (post_f tf sf uf pools blocks) still_there p = true.
+Proof. exact no_delete_with_blocks_f. Qed.
+Print Assumptions c39_faults_no_delete_with_blocks.
+
+Theorem c39_faults_allocatable_has_finalizer : forall tf sf uf pools blocks p,
+  NoDup (map p_name pools) -> In p pools ->
+  mem_name (p_name p) sf = false -> mem_name (p_name p) uf = false ->
+  after (post_f tf sf uf pools blocks) (fun q => allocatable q && negb (p_deleting q)) p = true ->
+  after (post_f tf sf uf pools blocks) p_fin p = true.
+Proof. exact allocatable_has_finalizer_f. Qed.
+Print Assumptions c39_faults_allocatable_has_finalizer.
+
+(* the oracle applied to the implementation (ok_round_f) accepts every pass of the model for every sf, uf *)
+Theorem c39_faults_model_meets_spec : forall tf sf uf pools blocks, NoDup (map p_name pools) ->
+  (tf = true \/ forall p, In p pools -> p_deleting p = true -> p_disabled p = false) ->
+  ok_round_f sf uf pools blocks (ro_pools (reconcile_f tf sf uf pools blocks)) = true.
+Proof. exact model_meets_spec_f. Qed.
+Print Assumptions c39_faults_model_meets_spec.
+
+(* with no failing write, reconcile_f is reconcile *)
+Theorem c39_faults_none_is_reconcile : forall tf pools blocks,
+  post_f tf [] [] pools blocks = post_of tf pools blocks.
+Proof. exact post_f_clean. Qed.
+Print Assumptions c39_faults_none_is_reconcile.
+
+(* histories (from the empty cluster, pools with readable CIDRs) in which every pass may have any
+   failing writes: one clean pass afterwards re-establishes Inv (all of (1), finalizers, names) *)
+Theorem c39_faults_then_clean_pass : forall tf hs blocks0,
+  Forall hopf_wf hs -> Inv (reconcile_step tf (run_history_f tf (mkState [] blocks0) hs)).
+Proof. exact history_f_then_clean_pass. Qed.
+Print Assumptions c39_faults_then_clean_pass.
+
+Theorem c39_faults_history_terminating_masks : forall tf hs blocks0 sf uf T p p',
+  Forall hopf_wf hs ->
+  let s := run_history_f tf (mkState [] blocks0) hs in
+  In T (st_pools s) -> In p (st_pools s) -> p_name p <> p_name T ->
+  p_deleting T = true -> (tf = true \/ p_disabled T = false) -> pools_overlap T p = true ->
+  allocatable p = false ->
+  In p' (st_pools (reconcile_step_f tf sf uf s)) -> p_name p' = p_name p -> allocatable p' = false.
+Proof. exact history_f_terminating_masks. Qed.
+Print Assumptions c39_faults_history_terminating_masks.
+
+Theorem c39_faults_history_no_delete_with_blocks : forall tf s p hs,
+  Base s -> In p (st_pools s) -> p_fin p = true ->
+  Forall hopf_wf hs ->
+  let s1 := api_step s (OpDelete (p_name p)) in
+  blocks_held_f tf p s1 hs ->
+  exists q, In q (st_pools (run_history_f tf s1 hs))
+            /\ p_name q = p_name p /\ p_cidr q = p_cidr p /\ p_deleting q = true /\ p_fin q = true.
+Proof. exact history_f_no_delete_with_blocks. Qed.
+Print Assumptions c39_faults_history_no_delete_with_blocks.
+
 (* ---- poolSortFunc: the sorted permutation is unique when names are distinct, so the model's
    insertion sort and Go's slices.SortFunc (any correct sort) return the same list *)
 Theorem c39_sort_unique : forall l l', NoDup (map p_name l) ->
@@ -178,6 +275,17 @@ Definition ex_blk : rawcidr := Some (false, 167772224, 26%nat).                 
 Definition ex_hist : list hop :=
   [HApi (OpCreate ex_a); HReconcile; HApi (OpBlockAdd ex_blk); HApi (OpCreate ex_b); HApi (OpCreate ex_c); HReconcile;
    HApi (OpDelete [97]); HReconcile].
+
+(* the status write for the freshly terminating pool a fails: a keeps masking b in that very pass, the datastore
+   still shows a's old condition, and the next clean pass writes Terminating *)
+Example c39_example_failed_write :
+  let s := run_history false (mkState [] []) [HApi (OpCreate ex_a); HReconcile; HApi (OpBlockAdd ex_blk); HApi (OpCreate ex_b);
+                                              HReconcile; HApi (OpDelete [97])] in
+  map (fun p => (p_name p, p_cond p, p_fin p)) (st_pools (reconcile_step_f true [[97]] [] s))
+  = [([97], Some (STrue, ROK), true); ([98], Some (SFalse, ROverlap), false)] /\
+  map (fun p => (p_name p, p_cond p, p_fin p)) (st_pools (reconcile_step true (reconcile_step_f true [[97]] [] s)))
+  = [([97], Some (SFalse, RTerminating), true); ([98], Some (SFalse, ROverlap), false)].
+Proof. split; vm_compute; reflexivity. Qed.
 
 Example c39_example_history :
   Forall hop_wf ex_hist /\
